@@ -229,7 +229,7 @@ def main():
                 npred += 1; failures["eitstar-edge"] += 1
                 if first_pred is None: first_pred = (el, "EIT*'s isValid() accepts (and whitelists) an edge of %d resolution segments that passes through an obstacle %.2f resolution lengths wide" % (F, (hi - lo) * F))
     c.cov.update({"eitstar_edge_histories": neit, "eitstar_edge_disagreements": neit_bad})
-    # (c) geometric::RRT as a whole against RrtModel.rrt_solve: scripted sampler, goal-bias draws from the RNG tape, linear nearest
+    # (c) geometric::RRT and RLRT (every third line; the node to extend from drawn from the tape) as wholes against RrtModel.rrt_solve / rlrt_solve: scripted sampler, goal-bias draws from the RNG tape, linear nearest
     #     neighbours, wall motion validator; the tree (states bit for bit, parents), the reported path, flag and difference must agree
     try:
         rdrv = c.build_driver("rrt_driver", link_ompl=True)
@@ -246,11 +246,11 @@ def main():
         g = (coord(grid), coord(grid)); npts = rng.choice([0, 1, 3, 8, 20, 60])
         pts = [(coord(grid), coord(grid)) for _ in range(npts)]
         if pts and rng.random() < 0.3: pts[rng.randrange(len(pts))] = g
-        rlines.append("RRT %g %g %g %d %d W %d %s S %d %s G %r %r P %d %s" % (rng.choice([0.1, 0.3, 0.5, 1.0, 10.0]), rng.choice([0.0, 0.05, 0.25, 0.5, 1.0]), rng.choice([0.0, 0.05, 0.2, 0.5]),
+        rlines.append("%s %g %g %g %d %d W %d %s S %d %s G %r %r P %d %s" % ("RRT" if i % 3 else "RLRT", rng.choice([0.1, 0.3, 0.5, 1.0, 10.0]), rng.choice([0.0, 0.05, 0.25, 0.5, 1.0]), rng.choice([0.0, 0.05, 0.2, 0.5]),
                       rng.choice([0, 1, 5, 20, 80]), rng.randint(0, 10 ** 6), len(walls), " ".join("%r %r %r" % w for w in walls), len(starts), " ".join("%r %r" % q for q in starts), g[0], g[1], len(pts), " ".join("%r %r" % q for q in pts)))
     rcr, orr, err_, srr = vf.sh([rdrv], input="\n".join(rlines) + "\n", timeout=900); c.step("correspond:impl-rrt", rdrv, srr, rcr == 0)
     rcq, oq, eq, sq = vf.sh([model, "rrt"], input="\n".join(rlines) + "\n", timeout=900); c.step("correspond:model-rrt", model + " rrt", sq, rcq == 0)
-    il, ml = [l for l in orr.split("\n") if l.startswith("rrt ")], [l for l in oq.split("\n") if l.startswith("rrt ")]
+    il, ml = [l for l in orr.split("\n") if l.startswith(("rrt ", "rlrt "))], [l for l in oq.split("\n") if l.startswith(("rrt ", "rlrt "))]
     nrrt_bad = 0; rrt_stats = collections.Counter()
     def fl(h): return struct.unpack("<d", struct.pack("<Q", int(h, 16)))[0]
     def canon_rrt(l):
@@ -266,7 +266,7 @@ def main():
         a = il[k] if k < len(il) else "<no output>"; b = ml[k] if k < len(ml) else "<no output>"
         if canon_rrt(a) != canon_rrt(b):
             nrrt_bad += 1; ndiff += 1
-            if first_diff is None or len(rl) < len(first_diff[0]): first_diff = (rl, "geometric::RRT: implementation '%s' RrtModel '%s'" % (a[:300], b[:300]))
+            if first_diff is None or len(rl) < len(first_diff[0]): first_diff = (rl, "geometric::RRT / RLRT: implementation '%s' RrtModel '%s'" % (a[:300], b[:300]))
         # the statement on the implementation's own tree and report
         try:
             w = rl.split(); nw = int(w[7]); walls = [(float(w[8 + 3 * j]), float(w[9 + 3 * j]), float(w[10 + 3 * j])) for j in range(nw)]
@@ -292,7 +292,7 @@ def main():
             rrt_stats["nodes"] += len(nodes)
             if bad:
                 npred += 1; failures["rrt-script"] += 1
-                if first_pred is None: first_pred = (rl, "geometric::RRT (scripted): " + bad)
+                if first_pred is None: first_pred = (rl, "geometric::%s (scripted): " % rl.split()[0] + bad)
         except Exception as ex:
             npred += 1; failures["rrt-script"] += 1
             if first_pred is None: first_pred = (rl, "geometric::RRT (scripted): no observation (%s) %s" % (ex, a[:80]))
